@@ -107,8 +107,12 @@ impl WorkerState {
         match self.running_tasks.find_mut(&task_id) {
             None => {
                 /* This may happen that task was computed or when work steal
-                  was successful
+                  was successful; or the task still waits in the backlog of prefilled
+                  tasks, then it must not be started later
                 */
+                self.prefilled_tasks
+                    .values_mut()
+                    .for_each(|tasks| tasks.retain(|t| t.id != task_id));
                 log::debug!("Task not found");
             }
             Some(task) => task.cancel(),
